@@ -264,7 +264,7 @@ def gen_history(rng):
     ninst = 0
     for s in range(n):
         k = rng.choice(["new", "parse", "parse", "render", "render", "parseInline", "renderInline", "enable", "disable", "opt_item", "opt_attr", "rrule",
-                        "use", "configure", "badcall", "parse", "set"])
+                        "use", "configure", "badcall", "parse", "set", "churn", "churn"])
         if ninst == 0 or (k == "new" and ninst < 3):
             p = rng.choice(["commonmark", "js-default", "zero", "gfm-like"])
             o = copy.deepcopy(rng.choice([{}, {"typographer": True}, {"html": False}, {"quotes": ["<", ">", "(", ")"], "typographer": True},
@@ -279,6 +279,8 @@ def gen_history(rng):
         i = rng.randrange(3)
         if k in ("parse", "render", "parseInline", "renderInline"):
             src = gen.strip_surrogates(gen.any_doc(rng))[:1500] + rng.choice(["", "\n\n[r]: /leak\n", "\n\n[R]: /leak2 'x'\n\n[leak]: /l3\n", "\n[x]: <y>\n"])
+            if rng.random() < 0.2:
+                src = rng.choice(PROBES)   # the very documents probed later (memo caches keyed on content would be warm)
             steps.append({"k": k, "i": i, "src": src, "env": rng.choice(["none", "none", "fresh", "shared", "seeded"]), "mutate": rng.random() < 0.2})
         elif k in ("enable", "disable"):
             steps.append({"k": k, "i": i, "names": rng.sample(RULES, rng.randint(1, 3))})
@@ -291,6 +293,15 @@ def gen_history(rng):
             steps.append({"k": k, "i": i, "tag": rng.choice(["P", "Q"]) + str(s)})
         elif k == "configure":
             steps.append({"k": k, "i": i, "preset": rng.choice(["commonmark", "js-default", "zero"]), "opts": rng.choice([{}, {"typographer": True}, {"html": False}])})
+        elif k == "churn":
+            # option churn around renders of the probe documents: set X, render, set Y (content-keyed memo caches would go stale)
+            key, v1, v2 = rng.choice([("highlight", "hl_a", "hl_b"), ("highlight", "hl_b", None), ("highlight", "hl_a", None), ("langPrefix", "l-", "m-"),
+                                      ("quotes", "«»‹›", ["a", "b", "c", "d"]), ("maxNesting", 3, 40), ("breaks", True, False), ("xhtmlOut", True, False)])
+            how = rng.choice(["opt_item", "opt_attr"])
+            steps.append({"k": how, "i": i, "key": key, "val": v1})
+            for _ in range(rng.randint(1, 3)):
+                steps.append({"k": "render", "i": i, "src": rng.choice(PROBES), "env": "none", "mutate": False})
+            steps.append({"k": rng.choice(["opt_item", "opt_attr"]), "i": i, "key": key, "val": v2})
         elif k == "set":
             steps.append({"k": "set", "i": i, "from": rng.randrange(3), "how": rng.choice(["options_object", "shared_dict", "copy"]), "name": rng.choice("xy")})
         else:
